@@ -61,6 +61,7 @@ func newSubprocessor(
 	localShardIndex ShardIndex,
 	unitsChan <-chan unitWithSender,
 	invalidUnitsChan chan<- invalidUnit,
+	processingEvents chan<- Event,
 ) subprocessor {
 	return subprocessor{
 		scheduler:       scheduler,
@@ -69,6 +70,7 @@ func newSubprocessor(
 
 		unitsChan:        unitsChan,
 		invalidUnitsChan: invalidUnitsChan,
+		processingEvents: processingEvents,
 
 		validator: NewValidator(publisher, scheduler),
 	}
@@ -451,6 +453,7 @@ func (p *Processor) createSubprocessor(
 		defer cancel()
 		subProcessor := newSubprocessor(
 			key.Publisher, scheduler, p.localPeer, localShardIndex, unitChan, p.invalidUnits,
+			p.processingEvents,
 		)
 		err := subProcessor.Run(ctx)
 		p.subProcessorsFinalized <- finalizedSubprocessor{
